@@ -4,12 +4,15 @@ import (
 	"bytes"
 	"encoding/json"
 	"fmt"
+	"os"
+	"path/filepath"
 	"reflect"
 
 	"github.com/tormoder/fit"
 
 	"verif/fitmodel"
 	"verif/vx"
+	"verif/xlsxlite"
 )
 
 // C15: profile tables, message structs and all-invalid constructors agree everywhere.
@@ -298,6 +301,9 @@ func runC15(w *vx.W) {
 				}
 			}
 		}
+		// field number <-> name agreement with the newest bundled workbook (FIT profiles are append-only),
+		// read with the independent stdlib reader
+		c15Workbook(w)
 		// all-invalid constructors: fields *without* table entry are covered by surjectivity above
 		w.Sample(map[string]interface{}{"tables": map[string]int{"fields": nf, "types": nt, "constructors": nc}, "known_messages": len(p.known), "entries": len(p.all)})
 	}
@@ -326,4 +332,79 @@ func runC15(w *vx.W) {
 		}
 	}
 	_ = reflect.TypeOf
+}
+
+
+// c15Workbook compares, for every (message, field number) row of the bundled 21.40
+// workbook that the compiled-in profile also has, the struct field the lookup
+// entry designates with the row's field name.
+func c15Workbook(w *vx.W) {
+	data, err := os.ReadFile(filepath.Join(repoRoot, "cmd", "fitgen", "internal", "profile", "testdata", "21.40.xlsx"))
+	if err != nil {
+		w.Note("bundled 21.40 workbook not readable: field-name agreement skipped")
+		return
+	}
+	wb, err := xlsxlite.Open(data)
+	if err != nil {
+		w.HarnessError("independent reader cannot open 21.40.xlsx: %v", err)
+	}
+	msgs, baseOf, err := readProfile(wb)
+	if err != nil {
+		w.HarnessError("21.40.xlsx: %v", err)
+	}
+	p := prof()
+	byName := map[string]uint16{}
+	for _, m := range p.known {
+		byName[fit.MesgNum(m).String()] = m
+	}
+	common := 0
+	for _, m := range msgs {
+		num, ok := byName[camel(m.Name)]
+		if !ok {
+			continue
+		}
+		mt := fit.VerifMesgType(fit.MesgNum(num))
+		for _, f := range m.Fields {
+			e, ok := p.fields[num][byte(f.Num)]
+			if !ok || f.Num > 255 {
+				continue
+			}
+			common++
+			w.Eval(1)
+			got := mt.Field(e.Sindex).Name
+			if got != camel(f.Name) {
+				// renamed fields exist between profile versions: only a name that belongs to ANOTHER row of the same message is a mix-up
+				other := false
+				for _, f2 := range m.Fields {
+					if camel(f2.Name) == got && f2.Num != f.Num {
+						other = true
+					}
+				}
+				if other {
+					w.Violation(fmt.Sprintf("workbook-name/%d.%d", num, f.Num), fmt.Sprintf("message %s field number %d: the lookup entry designates struct field %s, the SDK workbook assigns that number to %s (and %s to another number)", m.Name, f.Num, got, f.Name, got), c15Replay{Mesg: num, Slot: f.Num, What: "workbook"})
+				} else {
+					w.Note(fmt.Sprintf("field renamed since SDK 21.40: %s.%d %s -> %s", m.Name, f.Num, f.Name, got))
+				}
+				continue
+			}
+			if wantBase, ok := expectedBase(f, baseOf); ok {
+				if idx, ok2 := baseIndexOfByte(e.Base); ok2 && idx != wantBase {
+					w.Violation(fmt.Sprintf("workbook-base/%d.%d", num, f.Num), fmt.Sprintf("message %s field %d (%s): compiled-in base type index %d, SDK workbook type %s has %d", m.Name, f.Num, f.Name, idx, f.Type, wantBase), c15Replay{Mesg: num, Slot: f.Num, What: "workbook"})
+				}
+			}
+		}
+	}
+	w.Fam("workbook-rows-compared", int64(common))
+	if common < 500 {
+		w.HarnessError("only %d rows in common with the 21.40 workbook", common)
+	}
+}
+
+func baseIndexOfByte(b byte) (int, bool) {
+	for i, k := range fitmodel.KnownBases {
+		if k == b {
+			return i, true
+		}
+	}
+	return 0, false
 }
